@@ -82,6 +82,39 @@ fn arith<B: Backend>(name: &'static str, packing: TablePacking) -> Result<Box<dy
 }
 
 
+/// Ops whose ports share a witness slot (x*y+x, x*x+y, x+x, y*y, Horner steps with aliased
+/// operands): a port that aliases another port of the same row must still be bound.
+fn alias<B: Backend>(name: &'static str, packing: TablePacking) -> Result<Box<dyn Case>, String> {
+    let mut b = B::new_builder();
+    let x = b.public_input();
+    let y = b.public_input();
+    let zero = b.define_const(B::EF::ZERO);
+    let m1 = b.mul_add(x, y, x); // c aliases a
+    let m2 = b.mul_add(x, x, y); // a aliases b
+    let m3 = b.mul_add(y, x, y); // c aliases a (other operand order)
+    let s = b.add(x, x); // a aliases b
+    let p = b.mul(y, y); // a aliases b
+    let h1 = b.horner_acc_step(zero, x, x, y); // c aliases b
+    let h2 = b.horner_acc_step(h1, x, y, y); // a aliases c
+    let t1 = b.add(m1, m2);
+    let t2 = b.add(t1, m3);
+    let t3 = b.add(t2, s);
+    let t4 = b.add(t3, p);
+    let t5 = b.add(t4, h2);
+    let expected = b.public_input();
+    b.connect(t5, expected);
+    let (xv, yv) = (tag::<B>(11), tag::<B>(13));
+    let m1v = xv * yv + xv;
+    let m2v = xv * xv + yv;
+    let m3v = yv * xv + yv;
+    let h1v = xv - yv; // 0*x + x - y
+    let h2v = h1v * xv + yv - yv;
+    let ev = m1v + m2v + m3v + (xv + xv) + (yv * yv) + h2v;
+    let inputs = Inputs { public: vec![xv, yv, ev], private: vec![], siblings: vec![] };
+    finish::<B>(name, b, inputs, packing)
+}
+
+
 /// One Horner chain of three steps (with K = 2: one packed pair + one single step) starting
 /// from the zero accumulator, followed by an Add that reads the chain's result.
 fn horner<B: Backend>(name: &'static str, packing: TablePacking) -> Result<Box<dyn Case>, String> {
@@ -469,6 +502,7 @@ pub fn catalogue() -> Vec<Spec> {
     let p11 = TablePacking::default;
     vec![
         spec!("bb1-arith", BbD1, "const, public, private input, ALU Add/Mul (forward+backward)/MulAdd/BoolCheck; D=1", |n| arith::<BbD1>(n, TablePacking::default())),
+        spec!("bb1-alias", BbD1, "ops whose ports share a slot (x*y+x, x*x+y, x+x, y*y, Horner with aliased operands); D=1", |n| alias::<BbD1>(n, TablePacking::default())),
         spec!("bb1-horner", BbD1, "HornerAcc chain (packed pair + single step), zero accumulator; D=1", |n| horner::<BbD1>(n, TablePacking::default())),
         spec!("bb1-bits", BbD1, "decompose_to_bits hint, BoolCheck, reconstruction; D=1", |n| bits::<BbD1>(n, TablePacking::default())),
         spec!("bb4-arith", BbD4, "ALU kinds over the binomial quartic extension", |n| arith::<BbD4>(n, TablePacking::default())),
@@ -493,5 +527,5 @@ pub fn catalogue() -> Vec<Spec> {
 }
 
 /// Circuits of the quick tier, cheapest first (the budget cuts from the end).
-pub const QUICK: [&str; 6] =
-    ["bb1-arith", "bb1-horner", "bb4-recompose", "bb4-challenger", "bb1-bits", "bb4-merkle"];
+pub const QUICK: [&str; 7] =
+    ["bb1-arith", "bb1-alias", "bb1-horner", "bb4-recompose", "bb4-challenger", "bb1-bits", "bb4-merkle"];
